@@ -57,6 +57,14 @@ func init() {
 		"math/bits.Len8":  func(in *Interp, fn *ssa.Function, a []Value) Value { return bitsLen(a[0].(*Term)) },
 		"math/bits.Len":   func(in *Interp, fn *ssa.Function, a []Value) Value { return bitsLen(a[0].(*Term)) },
 		"(github.com/ElrondNetwork/elrond-go/core.PeerID).Pretty": func(in *Interp, fn *ssa.Function, a []Value) Value { return concreteStr("<pid>") },
+		"internal/bytealg.MakeNoZero": func(in *Interp, fn *ssa.Function, a []Value) Value {
+			n := int(concInt(a[0]))
+			out := make([]Value, n)
+			for i := range out {
+				out[i] = BVConstU(8, 0)
+			}
+			return Slice{A: out}
+		},
 		"bytes.Equal": func(in *Interp, fn *ssa.Function, a []Value) Value {
 			x, y := a[0].(Slice), a[1].(Slice)
 			if len(x.A) != len(y.A) {
